@@ -253,10 +253,10 @@ def scenarios(tier):
     A = ["lemma scenarios: candidate readers are stubs (free message count per call, free is_valid, free payload kind)"] + inject.assumptions(("mc",))
     out = []
     for proto in ("payload", "message"):
-        r, c, m = (2, 2, 2) if q else (3, 3, 2)
-        out.append(Scenario(f"lemma {proto} protocol: {r} stub readers x {c} calls x <= {m} messages", lemma_path(proto, r, c, m),
-                            bounds={"readers": r, "calls": c, "messages_per_call": f"0..{m}", "per message": "is_valid free, payload None|empty|non-empty free"}, domains=("mc",), frontier=6, assumptions=A,
-                            replay_cap=150, must_reach=("assert", "selected", "none-selected")))
+        for r, c, m in ([(2, 2, 2)] if q else [(2, 2, 3), (3, 2, 2), (2, 3, 2)] if proto == "message" else [(2, 2, 2), (3, 2, 1), (2, 3, 1), (1, 2, 3)]):
+            out.append(Scenario(f"lemma {proto} protocol: {r} stub readers x {c} calls x <= {m} messages", lemma_path(proto, r, c, m),
+                                bounds={"readers": r, "calls": c, "messages_per_call": f"0..{m}", "per message": "is_valid free, payload None|empty|non-empty free"}, domains=("mc",), frontier=6, assumptions=A,
+                                replay_cap=150, must_reach=("assert", "selected", "none-selected")))
     AR = inject.assumptions(("hdlc", "p1", "mc"))
     for proto in ("payload", "message"):
         for readers, kind in ((("hdlc",), "hdlc"), (("p1",), "p1"), (("hdlc", "p1"), "hdlc"), (("p1", "hdlc"), "hdlc"), (("hdlc", "p1"), "p1"), (("p1", "hdlc"), "p1"), (("hdlc11", "p1"), "hdlc")):
